@@ -10,7 +10,7 @@ from .. import loop_common, pool_common
 class Prop:
     id = "C05"
     lean_module = "MuduoVerif.Props.C05"
-    gen_engines = ["Loop", "Pool"]
+    gen_engines = ["Loop", "Pool", "ThreadSkel"]
     drivers = ["loop", "pool"]
     technique = ("Lean 4 invariant proofs over the thread-indexed transition system of EventLoop::quit/loop and "
                  "EventLoopThread (monitor code over mutex_, cond_, loop_; loop object lifetime explicit, so a use after "
@@ -57,6 +57,7 @@ class Prop:
         "vlib/extract.py + vlib/gen/loop.py, vlib/gen/pool.py (clang-14 JSON AST -> Generated/Loop.lean, Generated/Pool.lean)",
         "hand-written Model/Loop.lean and Model/Pool.lean, tied by the differential runs (harness/loop_drv.cc vs "
         "lean/Driver/LoopDrv.lean, harness/pool_drv.cc vs lean/Driver/PoolDrv.lean)",
+        "vlib/gen/threadskel.py + vlib/logskel_common.py (same AST -> Generated/ThreadSkel.lean: statement skeletons of Thread::Thread / start / join / ~Thread / setDefaultName, detail::startThread, ThreadData::runInThread (Thread.cc), CountDownLatch::wait / countDown) and the hand-written reading Model/ThreadSkelDecl.lean (which atomic step of the model stands for which statements): that the code calls pthread in the modelled order is tied by decide; what the pthread / libc functions do stays trusted (POSIX)",
         "harness/sched/detsched.h and the eventfd/read/write/close interposers of harness/loop_drv.cc; AddressSanitizer "
         "(fake stacks) as the second use-after-destruction detector",
         "pthread mutexes/conditions/join, eventfd and poll behave as documented; Thread::start returns after the new thread "
